@@ -110,7 +110,10 @@ def run(ctx):
     idx = ad[0].loops[-1]['index']
     v = ad[0].data['value']
     want1 = T.mk_sub(ctx.spec(init, 'xp.zeros(num_antennas, dtype=int)'), idx)
-    ok = v.key in (want1.key, T.mk_call('int', [want1]).key)
+    # (the i-th entry, whether the loop indexes the array or iterates over it)
+    zs = ctx.spec(init, 'xp.zeros(num_antennas, dtype=int)')
+    want2 = Term.of(Atom('elem', zs, ad[0].loops[-1]['id']))
+    ok = v.key in (want1.key, T.mk_call('int', [want1]).key, want2.key, T.mk_call('int', [want2]).key)
     ctx.ob('FORMULA', 'antenna i gets the i-th normalised delay', init, ok, {'value': pretty(v)}, node=ad[0].node)
 
     REF_MA_INIT = """
